@@ -547,7 +547,7 @@ def _k1_parts(tier):
         out += [{"api": v, "page": p, "slots": 3, "depth": 2, "budget": 4} for v in ("all", "ext") for p in (1, 2, 3)]
     else:
         for v in K1_VARIANTS:
-            out += [{"api": v, "page": p, "slots": 2, "depth": 3, "budget": 6} for p in (1, 2)]
+            out += [{"api": v, "page": p, "slots": 2, "depth": 3, "budget": 7} for p in (1, 2)]
             out += [{"api": v, "page": p, "slots": 3, "depth": 3, "budget": 5} for p in (1, 2, 3)]
     return out
 
@@ -786,7 +786,7 @@ def k2_faults(ctx):
 def _k2_parts(tier):
     pages = (1, 2) if tier == "quick" else (1, 2, 3)
     out = [{"lib": l, "api": a, "page": p} for l, a in K2_SCENARIOS for p in pages]
-    b = 2 if tier == "quick" else 3
+    b = 2 if tier == "quick" else 4
     out += [{"lib": "sym", "api": a, "page": p, "budget": b} for a in ("all", "folder") for p in (1, 2)]
     return out
 
@@ -1107,7 +1107,7 @@ META = {
                   "names/extensions and an uninterpreted fnmatch; faults are injected at a symbolic request index for "
                   "ten fault kinds, checking the exception family/status/URL, close() on every response and a complete retry.",
     "level_note": "Trusted: the fake transport's reading of the Graph protocol (opaque nextLink, 404 for unknown "
-                  "paths), urllib's quote/unquote. Bounds: <= 4 (thorough 6) members per library, depth <= 3, page size "
+                  "paths), urllib's quote/unquote. Bounds: <= 5 (thorough 7) members per library, depth <= 3, page size "
                   "1..3, <= 2 symbolic member names per object, names/extensions <= 8 ASCII characters.",
     "technique": "symbolic execution of the client methods on proxy drive items (symrun), lazy symbolic environment "
                  "model behind request_func, per-path SMT queries against reference walk / reference predicate, "
